@@ -13,6 +13,8 @@ class _RT:
     getitem = staticmethod(core.getitem)
     join = staticmethod(core.join)
     fstr = staticmethod(core.fstr)
+    fval = staticmethod(core.fval)
+    rt_get = staticmethod(core.rt_get)
     rt_len = staticmethod(core.rt_len)
     rt_range = staticmethod(core.rt_range)
     rt_enumerate = staticmethod(core.rt_enumerate)
@@ -66,6 +68,8 @@ class Rewriter(ast.NodeTransformer):
         f = node.func
         if isinstance(f, ast.Attribute) and f.attr == "join" and len(node.args) == 1 and not node.keywords:
             return ast.Call(func=_rt("join"), args=[f.value, node.args[0]], keywords=[])
+        if isinstance(f, ast.Attribute) and f.attr == "get" and len(node.args) in (1, 2) and not node.keywords:
+            return ast.Call(func=_rt("rt_get"), args=[f.value] + node.args, keywords=[])
         if isinstance(f, ast.Name):
             if f.id == "len" and len(node.args) == 1:
                 return ast.Call(func=_rt("rt_len"), args=node.args, keywords=[])
@@ -98,9 +102,12 @@ class Rewriter(ast.NodeTransformer):
         parts = []
         for v in node.values:
             if isinstance(v, ast.FormattedValue):
-                if v.format_spec is not None or v.conversion != -1:
-                    return node
-                parts.append(v.value)
+                if v.format_spec is None and v.conversion == -1:
+                    parts.append(v.value)
+                else:
+                    # {value!conv:spec}: the (already rewritten) spec is an ordinary expression here
+                    spec = v.format_spec if v.format_spec is not None else ast.Constant(value="")
+                    parts.append(ast.Call(func=_rt("fval"), args=[v.value, ast.Constant(value=v.conversion), spec], keywords=[]))
             else:
                 parts.append(v)
         return ast.Call(func=_rt("fstr"), args=parts, keywords=[])
